@@ -11,5 +11,6 @@ git -C "$wt" apply "$patch" || { echo "patch does not apply"; git -C /repo workt
 cd /verif
 VERIF_REPO=$wt python3 tools/check.py "$prop" --tier "$tier"; rc=$?
 git -C /repo worktree remove --force "$wt"; rm -rf "$wt"
+rm -rf /verif/.cache-*
 git -C /verif checkout -- evidence
 echo "EXIT=$rc"
